@@ -84,6 +84,8 @@ var strLit = map[string][2]string{
 	"sx": {`"x"`, "x"}, "se": {`""`, ""}, "s12": {`"12"`, "12"}, "sb64": {`"YWI="`, "YWI="}, "sb1": {`"YQ=="`, "YQ=="}, "sb3": {`"YWJj"`, "YWJj"},
 	"sesc": {`"a\né\"A\/"`, "a\né\"A/"}, "snull": {`"null"`, "null"}, "strue": {`"true"`, "true"},
 	"sq": {`"\"x\""`, `"x"`}, "ssur": {`"\ud800"`, "�"}, "sctl": {"\"a\x01b\"", "a\x01b"}, "sbad": {"\"a\xffb\"", "a�b"},
+	"sqe": {`"\"a\\nb\""`, "\"a\\nb\""}, "sanb": {`"a\nb"`, "a\nb"},
+	"sqo": {`"\"x"`, `"x`}, "sqbs": {`"\"x\\"`, `"x\`}, "sqt": {`"\"x\"y"`, `"x"y`},
 	"old": {`"old"`, "old"}, "none": {`""`, ""},
 	"q7": {`"7"`, "7"}, "q200": {`"200"`, "200"}, "q300": {`"300"`, "300"}, "q40000": {`"40000"`, "40000"}, "q70000": {`"70000"`, "70000"},
 	"q3e9": {`"3000000000"`, "3000000000"}, "q5e9": {`"5000000000"`, "5000000000"}, "qn3": {`"-3"`, "-3"}, "q1_5": {`"1.5"`, "1.5"},
